@@ -56,14 +56,15 @@ func runVars(c VarCase, dir string) error {
 		ycmd = `printf 'Y=%s\n' '{{ .y }}'`
 	}
 	cmd := `printf 'X=%s other=%s R=%s T=%s A=[%s] L=%s E=[%s]\n' '{{ .x }}' '{{ .other }}' '{{ .Root }}' '{{ .TempDir }}' '{{ .Args }}' '{{ range .ArgsList }}<{{ . }}>{{ end }}' "$ARGS"`
-	tvars := gen.Map{{K: "other", V: "taskother"}}
+	// greet is a task variable whose value is a template over x: it resolves with the x of the run at hand
+	tvars := gen.Map{{K: "other", V: "taskother"}, {K: "greet", V: "G({{ .x }})"}}
 	if has(2) {
 		tvars = tvars.Set("x", c.Vals[2])
 	}
 	if has2(2) {
 		tvars = tvars.Set("y", c.Vals2[2])
 	}
-	cmds := gen.List{cmd}
+	cmds := gen.List{cmd, `printf 'GREET=%s\n' '{{ .greet }}'`}
 	if ycmd != "" {
 		cmds = append(cmds, ycmd)
 	}
@@ -104,8 +105,14 @@ func runVars(c VarCase, dir string) error {
 	if has2(1) && !c.SetFirst {
 		args = append(args, "--set", "y="+c.Vals2[1])
 	}
+	// stage cases run the pipeline and then, where x (and y) are defined below the stage level too, the task directly
+	// in the same invocation: the direct run resolves without the stage level
+	both := c.AsStage && c.Mask&7 != 0 && (c.Mask2 == 0 || c.Mask2&7 != 0)
 	if c.AsStage {
 		args = append(args, "pp")
+		if both {
+			args = append(args, "tk")
+		}
 	} else {
 		args = append(args, "tk")
 	}
@@ -127,6 +134,30 @@ func runVars(c VarCase, dir string) error {
 	}
 	if r.Exit != 0 || !strings.Contains(r.Stdout, want) {
 		return fmt.Errorf("argv %q, x defined at %v: want line %q, got exit %d stdout %q stderr %q", args, present(c.Mask), want, r.Exit, r.Stdout, r.Stderr)
+	}
+	if wantG := "GREET=G(" + c.Vals[top] + ")\n"; !strings.Contains(r.Stdout, wantG) {
+		return fmt.Errorf("argv %q, x defined at %v: the templated variable greet = G({{ .x }}) must resolve with this run's x: want line %q, stdout %q", args, present(c.Mask), wantG, r.Stdout)
+	}
+	if both {
+		topD := -1
+		for i := 0; i < 3; i++ {
+			if has(i) {
+				topD = i
+			}
+		}
+		// the direct run's lines come last
+		lastX, lastG := "", ""
+		for _, l := range strings.Split(r.Stdout, "\n") {
+			if strings.HasPrefix(l, "X=") {
+				lastX = l
+			}
+			if strings.HasPrefix(l, "GREET=") {
+				lastG = l
+			}
+		}
+		if !strings.HasPrefix(lastX, "X="+c.Vals[topD]+" other=") || lastG != "GREET=G("+c.Vals[topD]+")" || strings.Count(r.Stdout, "GREET=") != 2 {
+			return fmt.Errorf("argv %q, x defined at %v: the direct run behind the pipeline must resolve x (and greet) without the stage level, to %q: stdout %q", args, present(c.Mask), c.Vals[topD], r.Stdout)
+		}
 	}
 	if c.Mask2 != 0 {
 		top2 := -1
